@@ -64,12 +64,12 @@ class DictProvider(LoaderProvider, DumperProvider):
     def _get_loader_dt_disable(self, key_loader: Loader, value_loader: Loader):
         def dict_loader(data):
             try:
-                items_method = data.items
-            except AttributeError:
+                items = data.items()
+            except (AttributeError, TypeError):  # TypeError: ``items`` can not be called like that (``dict`` itself as data)
                 raise TypeLoadError(CollectionsMapping, data)
 
             result = {}
-            for k, v in items_method():
+            for k, v in items:
                 loaded_key = key_loader(k)
                 loaded_value = value_loader(v)
                 try:
@@ -84,12 +84,12 @@ class DictProvider(LoaderProvider, DumperProvider):
     def _get_loader_dt_first(self, key_loader: Loader, value_loader: Loader):
         def dict_loader_dt_first(data):
             try:
-                items_method = data.items
-            except AttributeError:
+                items = data.items()
+            except (AttributeError, TypeError):  # TypeError: ``items`` can not be called like that (``dict`` itself as data)
                 raise TypeLoadError(CollectionsMapping, data)
 
             result = {}
-            for k, v in items_method():
+            for k, v in items:
                 try:
                     loaded_key = key_loader(k)
                 except Exception as e:
@@ -114,14 +114,14 @@ class DictProvider(LoaderProvider, DumperProvider):
     def _get_loader_dt_all(self, key_loader: Loader, value_loader: Loader):  # noqa: C901
         def dict_loader_dt_all(data):
             try:
-                items_method = data.items
-            except AttributeError:
+                items = data.items()
+            except (AttributeError, TypeError):  # TypeError: ``items`` can not be called like that (``dict`` itself as data)
                 raise TypeLoadError(CollectionsMapping, data)
 
             result = {}
             errors = []
             has_unexpected_error = False
-            for k, v in items_method():
+            for k, v in items:
                 try:
                     loaded_key = key_loader(k)
                 except LoadError as e:
